@@ -1,7 +1,7 @@
 #!/bin/bash
 # False-alarm regression: apply each behaviour-preserving refactor of refactors/<id>/patch.diff in a scratch worktree of /repo
 # and run EVERY quick check against it (MSMART_REPO); none may exit non-zero.  /repo itself is not touched.
-#   usage: tools/refactor_eval.sh [worktree, default /tmp/wt_eval]
+#   usage: [ONLY="S11 S12"] tools/refactor_eval.sh [worktree, default /tmp/wt_eval]
 cd "$(dirname "$0")/.."
 WT=${1:-/tmp/wt_eval}
 [ -d "$WT" ] || git -C /repo worktree add --detach "$WT" HEAD -q
@@ -10,6 +10,7 @@ export MSMART_REPO=$WT VERIF_EVIDENCE_DIR=/tmp/verif_refactor_evidence
 fail=0
 for d in refactors/*/; do
   r=$(basename "$d")
+  if [ -n "$ONLY" ] && ! echo " $ONLY " | grep -q " $r "; then continue; fi
   git -C "$WT" checkout -q -- . ; git -C "$WT" clean -fdq
   if ! git -C "$WT" apply "$PWD/$d/patch.diff" 2>/dev/null; then echo "$r: patch does not apply (tree moved on)"; continue; fi
   bad=""
